@@ -380,7 +380,8 @@ META = {
              'unconditionally restores every attribute the processing methods carry between calls, that no function modifies '
              'module-level state or consumes a set / unsorted listing in an order-sensitive way, that __getstate__/copy work '
              'on copies and that a Waterfall is deep-copied only after its h5py handle is dropped (frames loaded from .h5 can '
-             'be copied). Bit-identical outputs across runs are not decided.',
+             'be copied). Bit-identical outputs across runs are not decided. Container-mutation terms (dict.pop/update on the '
+             'pickled state) are compared decisively, so a __getstate__ that drops further attributes is reported.',
     'note': 'Aliasing is tracked per local name with attribute paths (no heap shapes); duck-typed method calls are resolved '
             'only when the method name is unique in the package.',
 }
